@@ -376,3 +376,124 @@ c19_inner!(c19_inner_nak_cookie, 4, P0, C, Policy::Serve, Auth::BadCookie, |o| {
 c19_inner!(c19_inner_nak_tag, 4, P0, C, Policy::Serve, Auth::BadTag, |o| {
     kani::cover!(o.kind == Some(Kind::Nak), "NAK: cookie fine, authentication fails");
 });
+
+// ==========================================================================================
+// Builder-level harnesses: `NtpPacket::nts_timestamp_response` (packet/mod.rs, "cookie
+// generation") driven directly with a request packet built from parts (hook `packet_from_parts`),
+// so that the number of placeholders can reach and exceed 8 and every placeholder length is
+// symbolic. Through `Server::handle` this is out of reach (see above).
+use ntp_proto::verif::keyset as kh;
+use std::borrow::Cow;
+
+/// Request = authenticated [uid(32), cookie(CK), P_AUTH placeholders] + encrypted [P_ENC
+/// placeholders]; every placeholder length symbolic (u16), cookie length CK constant, fresh
+/// cookie length `fresh` constant.
+pub fn cookie_answer<const P_AUTH: usize, const P_ENC: usize>(ck: usize, fresh: usize) -> (usize, usize) {
+    let env = Env::any().with(Policy::Serve);
+    let uid: [u8; 32] = kani::any();
+    let lens_auth: [u16; P_AUTH] = kani::any();
+    let lens_enc: [u16; P_ENC] = kani::any();
+    let tx: u64 = kani::any();
+    let poll: i8 = kani::any();
+
+    let mut auth: Vec<Ef<'static>> = Vec::with_capacity(P_AUTH + 2);
+    auth.push(Ef::UniqueIdentifier(Cow::Owned(uid.to_vec())));
+    auth.push(Ef::NtsCookie(Cow::Owned(vec![0x11u8; ck])));
+    let mut i = 0;
+    while i < P_AUTH {
+        auth.push(Ef::NtsCookiePlaceholder { cookie_length: lens_auth[i] });
+        i += 1;
+    }
+    let mut enc: Vec<Ef<'static>> = Vec::with_capacity(P_ENC + 1);
+    let mut i = 0;
+    while i < P_ENC {
+        enc.push(Ef::NtsCookiePlaceholder { cookie_length: lens_enc[i] });
+        i += 1;
+    }
+    let z = th::dur_from_raw(0);
+    let zt = th::ts_from_raw(0);
+    let head = ph::packet_v3v4_from_raw(false, NtpLeapIndicator::NoWarning, NtpAssociationMode::Client, 0, th::poll_from_raw(poll), 0, z, z,
+        ReferenceId::NONE, zt, zt, zt, th::ts_from_raw(tx));
+    let input = ph::packet_from_parts(head.header(), auth, enc, Vec::new());
+    let cookie = kh::decoded_cookie_from_parts(15, Box::new(ModelCipher { id: [S2C_ID] }), Box::new(ModelCipher { id: [C2S_ID] }));
+    let keyset = empty_keyset();
+    reset_ghosts(Auth::Ok, fresh);
+    unsafe { DISPERSION = env.root_disp_raw };
+    let clock = FixedClock { now: th::ts_from_raw(env.now_raw) };
+    let resp = NtpPacket::nts_timestamp_response(env.server_info(v5::BloomFilter::new()), input, env.recv(), &clock, &cookie, &keyset);
+
+    // ---- oracle (property text): counts and sizes
+    let out_auth = ph::packet_authenticated(&resp);
+    let out_enc = ph::packet_encrypted(&resp);
+    assert!(ph::packet_untrusted(&resp).len() == 0, "nothing unauthenticated in the answer");
+    assert!(out_auth.len() == 1, "only the unique identifier is echoed (placeholders and the old cookie are not reflected)");
+    match &out_auth[0] {
+        Ef::UniqueIdentifier(d) => assert!(d.len() == 32 && same(d, 0, &uid, 0, 32), "identifier echoed unchanged"),
+        _ => assert!(false, "echoed field is the unique identifier"),
+    }
+    // request fields able to hold a fresh cookie
+    let mut holders = (ck >= fresh) as usize;
+    let mut i = 0;
+    while i < P_AUTH {
+        holders += (lens_auth[i] as usize >= fresh) as usize;
+        i += 1;
+    }
+    let mut i = 0;
+    while i < P_ENC {
+        holders += (lens_enc[i] as usize >= fresh) as usize;
+        i += 1;
+    }
+    let k = out_enc.len();
+    assert!(k <= 8, "C19: never more than eight cookies");
+    assert!(k <= 1 + P_AUTH + P_ENC, "C19: at most one fresh cookie per cookie or placeholder in the request");
+    assert!(k <= holders, "C19: no fresh cookie is larger than the field it replaces");
+    let mut i = 0;
+    let mut last_seq = 0u8;
+    while i < k && i < 8 {
+        match &out_enc[i] {
+            Ef::NtsCookie(c) => {
+                assert!(c.len() == fresh, "cookie of the issued length");
+                assert!(c[0] == 0xC0 && c[2] == S2C_ID && c[3] == C2S_ID, "C19: issued by encode_cookie for the request's session keys");
+                assert!(c[1] > last_seq, "every cookie comes from its own encode_cookie call");
+                last_seq = c[1];
+            }
+            _ => assert!(false, "encrypted part of the answer holds cookies only"),
+        }
+        i += 1;
+    }
+    assert!(unsafe { COOKIE_ENCODE_BAD_KEYS } == 0, "C19: cookies are encoded for the same session keys");
+    assert!(unsafe { COOKIE_ENCODES } == 0 || unsafe { COOKIE_ENCODE_KEYSET } == Arc::as_ptr(&keyset), "C19: under the key set handed to the builder");
+    assert!(resp.stratum() == env.stratum && th::ts_raw(resp.receive_timestamp()) == env.recv_raw && th::ts_raw(resp.transmit_timestamp()) == env.now_raw,
+        "time answer carries stratum, reception time, clock reading");
+    std::mem::forget(resp);
+    std::mem::forget(cookie);
+    (k, holders)
+}
+
+srv_harness! {
+    #[kani::unwind(6)]
+    fn c19_cookies_p2() {
+        let (k, holders) = cookie_answer::<2, 0>(C, C);
+        kani::cover!(k == 3, "three fresh cookies for cookie + 2 placeholders");
+        kani::cover!(k == 1 && holders == 1, "both placeholders too small: only the cookie is replaced");
+    }
+}
+
+srv_harness! {
+    #[kani::unwind(6)]
+    fn c19_cookies_small_cookie() {
+        // fresh cookies longer than the request's cookie: only large-enough placeholders are used
+        let (k, holders) = cookie_answer::<1, 1>(C, C + 4);
+        kani::cover!(k == 2, "cookie field too small, both placeholders used");
+        kani::cover!(k == 0 && holders == 0, "nothing fits: no cookie");
+    }
+}
+
+srv_harness! {
+    #[kani::unwind(13)]
+    fn c19_cookies_p9() {
+        // 1 cookie + 7 authenticated + 2 encrypted placeholders = 10 candidates
+        let (k, holders) = cookie_answer::<7, 2>(C, C);
+        kani::cover!(holders == 10 && k >= 7, "more candidates than the limit: capped");
+    }
+}
